@@ -15,11 +15,13 @@ decoding just `d[:N]` gives the same object, and so does `d[:N]` followed by **a
 `C09_split*`: a concatenation of packed units (one kind, or mixed kinds) is split into exactly
 those units by "decode, drop the reported length" — induction over the list, no bound on the count.
 
-The two filestore TLV classes report the length of their *re-encoding* (`common_packet_len`), which
-is smaller than the declared TLV length when the value field holds more than the names — an input
-no encoder produces. For them the every-accepted-buffer statement is about the **declared** length
-(`C09_fs_request`, `C09_fs_response`), the reported length never exceeds it, and whenever the two
-agree — in particular for every packed unit — the uniform statement holds (`C09_fs_*_exact`).
+The two filestore TLV classes report the length of their *re-encoding* (`common_packet_len`). Since
+/repo commit d425927 a value field that holds anything after the names / the message LV is refused,
+so for every accepted buffer that length IS the declared TLV length
+(`Tlv.FileStoreRequestTlv.fromTlv_len_exact` / `FileStoreResponseTlv.fromTlv_len_exact`): the
+uniform statement holds for them without any hypothesis (`C09_fs_request_exact`,
+`C09_fs_response_exact`, and `C09_kind` covers all twenty kinds); `C09_fs_request` /
+`C09_fs_response` state the same on the declared length.
 -/
 namespace SpVerif.Props.C09
 open SpVerif SpVerif.Prefix SpVerif.SpacePacket SpVerif.PusTc SpVerif.PusTm SpVerif.Srv1 SpVerif.CfdpHeader
@@ -123,11 +125,11 @@ theorem C09_fs_request (d : Bytes) (t : FileStoreRequestTlv) (hu : FileStoreRequ
     exact hloc _ (by rw [List.take_append_of_le_length (by omega), List.take_take, Nat.min_self])
       (by rw [List.length_append]; omega)
 
-/-- … and whenever the reported length is the declared one (every packed request), the uniform
-    statement holds with the reported length -/
-theorem C09_fs_request_exact (d : Bytes) (t : FileStoreRequestTlv) (hu : FileStoreRequestTlv.unpack d = .ok t)
-    (hx : t.packetLen = tlvDeclaredLen d) : PrefixOnly FileStoreRequestTlv.unpack d t t.packetLen :=
-  prefixOnly_of (fsRequest_localAt hu hx)
+/-- … and the reported length IS the declared one for every accepted buffer (slack inside the value
+    field is refused), so the uniform statement holds with the reported length, unconditionally -/
+theorem C09_fs_request_exact (d : Bytes) (t : FileStoreRequestTlv) (hu : FileStoreRequestTlv.unpack d = .ok t) :
+    t.packetLen = tlvDeclaredLen d ∧ PrefixOnly FileStoreRequestTlv.unpack d t t.packetLen :=
+  ⟨fsRequest_len_declared hu, prefixOnly_of (fsRequest_local d t hu)⟩
 
 theorem C09_fs_response (d : Bytes) (t : FileStoreResponseTlv) (hu : FileStoreResponseTlv.unpack d = .ok t) :
     t.packetLen ≤ tlvDeclaredLen d ∧ PrefixOnly FileStoreResponseTlv.unpack d t (tlvDeclaredLen d) := by
@@ -139,17 +141,17 @@ theorem C09_fs_response (d : Bytes) (t : FileStoreResponseTlv) (hu : FileStoreRe
       (by rw [List.length_append]; omega)
 
 theorem C09_fs_response_exact (d : Bytes) (t : FileStoreResponseTlv)
-    (hu : FileStoreResponseTlv.unpack d = .ok t) (hx : t.packetLen = tlvDeclaredLen d) :
-    PrefixOnly FileStoreResponseTlv.unpack d t t.packetLen :=
-  prefixOnly_of (fsResponse_localAt hu hx)
+    (hu : FileStoreResponseTlv.unpack d = .ok t) :
+    t.packetLen = tlvDeclaredLen d ∧ PrefixOnly FileStoreResponseTlv.unpack d t t.packetLen :=
+  ⟨fsResponse_len_declared hu, prefixOnly_of (fsResponse_local d t hu)⟩
 
 /-- **the former slack witness is refused** (adapted by C08 after /repo commit d425927: `from_tlv`
     refuses a value field that does not end with the names / the message LV, and the model follows).
     The request TLV declaring 12 octets whose value holds three octets after the file name — which the
     unrepaired decoder accepted while reporting 9 — is now a `ValueError`; every accepted filestore
     TLV reports exactly the declared length (`Tlv.FileStoreRequestTlv.fromTlv_len_exact`,
-    `Tlv.FileStoreResponseTlv.fromTlv_len_exact`, `C08_fs_request_len_exact`), so the hypothesis
-    `hx` of `C09_fs_request_exact` / `C09_fs_response_exact` can be discharged unconditionally. -/
+    `Tlv.FileStoreResponseTlv.fromTlv_len_exact`, `C08_fs_request_len_exact`), which is why
+    `C09_fs_request_exact` / `C09_fs_response_exact` / `C09_kind` carry no hypothesis about it. -/
 theorem C09_fs_request_slack_witness :
     FileStoreRequestTlv.unpack [0, 10, 0, 5, 0x61, 0x2E, 0x74, 0x78, 0x74, 1, 2, 3] = .error .value := by
   decide
@@ -193,11 +195,11 @@ theorem C09_byte_field_readers (d : Bytes) :
 
 /-! ## the table: one statement for every kind -/
 
-/-- every kind whose object reports the declared length (all but the two filestore TLV classes):
-    every accepted buffer is determined by its first `len` octets -/
-theorem C09_kind (k : Kind) (hk : k.exact = true) (d : Bytes) (r : Decoded) (hu : k.decode d = .ok r) :
+/-- **every kind of the table** (all twenty, the two filestore TLV classes included): every accepted
+    buffer is determined by its first `len` octets, `len` being the length the decoded object reports -/
+theorem C09_kind (k : Kind) (d : Bytes) (r : Decoded) (hu : k.decode d = .ok r) :
     PrefixOnly k.decode d r r.len :=
-  prefixOnly_of (Kind.local k hk d r hu)
+  prefixOnly_of (Kind.local k d r hu)
 
 /-- **a unit followed by anything decodes as the unit alone** — every kind, every accepted buffer -/
 theorem C09_suffix (k : Kind) (d : Bytes) (r : Decoded) (hu : k.decode d = .ok r) (s : Bytes) :
@@ -340,6 +342,96 @@ theorem C09_pack_byte_field (w v : Nat) (wf : C20.WF w v) (h0 : w ≠ 0) (s : By
   rw [List.append_nil] at h1
   exact ⟨by rw [(C20.C20_roundtrip w v wf h0 s).2, h1], h1⟩
 
+/-- service-17 wrapper: the decoder is `PusTm.unpack` (C03) -/
+theorem C09_pack_s17 (t : Tm) (wf : C03.WF t) (s : Bytes) :
+    srv17Unpack (C03.Spec.octets t ++ s) t.sec.timestamp.length = srv17Unpack (C03.Spec.octets t) t.sec.timestamp.length ∧
+    srv17Unpack (C03.Spec.octets t) t.sec.timestamp.length = .ok t ∧ (C03.Spec.octets t).length = t.packetLen :=
+  C09_pack_tm t wf s
+
+/-- service-1 report, every subservice 1..8, every accepted PFC (decoded with the widths of its own
+    fields; the decoded parameter set is `C15.normParams p`, `p` itself when all PFCs are 8 × width) -/
+theorem C09_pack_s1 (apid sub count ver ref dst : Nat) (ts : Bytes) (p : VParams)
+    (ha : apid < 2048) (hc : count < 16384) (hsub : 1 ≤ sub ∧ sub ≤ 8) (hv : ver < 8) (hr : ref < 16)
+    (hd : dst < 65536) (hl : ts.length + (C15.Spec.sourceData p).length ≤ 65527)
+    (wp : C15.WFParams p) (hm : C15.Matches p sub) (sb eb : Nat)
+    (hsb : ∀ f, p.stepId = some f → sb = C15.fieldWidth f)
+    (heb : ∀ n, p.failure = some n → eb = C15.fieldWidth n.code) (s : Bytes) :
+    S1Tm.unpack (C15.Spec.reportOctets apid sub count ver ref dst ts p ++ s) ts.length sb eb
+      = S1Tm.unpack (C15.Spec.reportOctets apid sub count ver ref dst ts p) ts.length sb eb ∧
+    S1Tm.unpack (C15.Spec.reportOctets apid sub count ver ref dst ts p) ts.length sb eb
+      = .ok ⟨C15.Spec.reportTm apid sub count ver ref dst ts p, C15.normParams p⟩ ∧
+    (C15.Spec.reportOctets apid sub count ver ref dst ts p).length
+      = (C15.Spec.reportTm apid sub count ver ref dst ts p).packetLen := by
+  have h0 := (C15.C15_report_roundtrip_any_pfc apid sub count ver ref dst ts p ha hc hsub hv hr hd hl wp hm sb eb
+    hsb heb []).1
+  rw [List.append_nil] at h0
+  refine ⟨by rw [(C15.C15_report_roundtrip_any_pfc apid sub count ver ref dst ts p ha hc hsub hv hr hd hl wp hm sb eb
+    hsb heb s).1, h0], h0, ?_⟩
+  exact (C03.C03_len _ (C15.reportTm_wf apid sub count ver ref dst ts p ha hc (by omega) hv hr hd hl)).1
+
+/-- packet field enumeration, every accepted PFC (decoded with its width) -/
+theorem C09_pack_field_enum (f : Pfe) (wf : C15.WFField f) (s : Bytes) :
+    Pfe.unpack (C15.Spec.fieldOctets f ++ s) (C15.fieldWidth f * 8)
+      = Pfe.unpack (C15.Spec.fieldOctets f) (C15.fieldWidth f * 8) ∧
+    Pfe.unpack (C15.Spec.fieldOctets f) (C15.fieldWidth f * 8) = .ok (C15.normField f) ∧
+    (C15.Spec.fieldOctets f).length = roundDiv8 (C15.normField f).pfc := by
+  have h0 := (C15.C15_field_roundtrip_any_pfc f wf []).1
+  rw [List.append_nil] at h0
+  refine ⟨by rw [(C15.C15_field_roundtrip_any_pfc f wf s).1, h0], h0, ?_⟩
+  rw [C15.fieldOctets_length]
+  exact (C15.normField_width f).symm
+
+theorem C09_pack_entity_id (v : Bytes) (wf : C08.WFValue v) (s : Bytes) :
+    EntityIdTlv.unpack (C08.Spec.entityId v ++ s) = EntityIdTlv.unpack (C08.Spec.entityId v) ∧
+    EntityIdTlv.unpack (C08.Spec.entityId v) = EntityIdTlv.new v ∧
+    (EntityIdTlv.new v >>= fun e => pure e.packetLen) = .ok (C08.Spec.entityId v).length := by
+  have h0 := C08.C08_entity_id_roundtrip v [] wf
+  rw [List.append_nil] at h0
+  exact ⟨by rw [C08.C08_entity_id_roundtrip v s wf, h0], h0, (C08.C08_entity_id_pack_exact v wf).2⟩
+
+theorem C09_pack_flow_label (v : Bytes) (wf : C08.WFValue v) (s : Bytes) :
+    FlowLabelTlv.unpack (C08.Spec.flowLabel v ++ s) = FlowLabelTlv.unpack (C08.Spec.flowLabel v) ∧
+    FlowLabelTlv.unpack (C08.Spec.flowLabel v) = FlowLabelTlv.new v ∧
+    (FlowLabelTlv.new v >>= fun e => pure e.packetLen) = .ok (C08.Spec.flowLabel v).length := by
+  have h0 := C08.C08_flow_label_roundtrip v [] wf
+  rw [List.append_nil] at h0
+  exact ⟨by rw [C08.C08_flow_label_roundtrip v s wf, h0], h0, (C08.C08_flow_label_pack_exact v wf).2⟩
+
+theorem C09_pack_msg_to_user (v : Bytes) (wf : C08.WFValue v) (s : Bytes) :
+    MessageToUserTlv.unpack (C08.Spec.msgToUser v ++ s) = MessageToUserTlv.unpack (C08.Spec.msgToUser v) ∧
+    MessageToUserTlv.unpack (C08.Spec.msgToUser v) = MessageToUserTlv.new v ∧
+    (MessageToUserTlv.new v >>= fun e => pure e.packetLen) = .ok (C08.Spec.msgToUser v).length := by
+  have h0 := C08.C08_msg_to_user_roundtrip v [] wf
+  rw [List.append_nil] at h0
+  exact ⟨by rw [C08.C08_msg_to_user_roundtrip v s wf, h0], h0, (C08.C08_msg_to_user_pack_exact v wf).2⟩
+
+theorem C09_pack_fault_handler (cc hc : Nat) (hcc : cc < 16) (hhc : hc < 16) (s : Bytes) :
+    FaultHandlerOverrideTlv.unpack (C08.Spec.faultHandler cc hc ++ s)
+      = FaultHandlerOverrideTlv.unpack (C08.Spec.faultHandler cc hc) ∧
+    FaultHandlerOverrideTlv.unpack (C08.Spec.faultHandler cc hc) = FaultHandlerOverrideTlv.new (cc : Int) hc ∧
+    (FaultHandlerOverrideTlv.new (cc : Int) hc >>= fun e => pure e.packetLen) = .ok 3 ∧
+    (C08.Spec.faultHandler cc hc).length = 3 := by
+  have h0 := C08.C08_fault_handler_roundtrip cc hc hcc hhc []
+  rw [List.append_nil] at h0
+  exact ⟨by rw [C08.C08_fault_handler_roundtrip cc hc hcc hhc s, h0], h0,
+    (C08.C08_fault_handler_pack_exact cc hc hcc hhc).2, rfl⟩
+
+theorem C09_pack_fs_request (r : FileStoreRequestTlv) (wf : C08.WFReq r) (s : Bytes) :
+    FileStoreRequestTlv.unpack (C08.Spec.fsRequest r ++ s) = FileStoreRequestTlv.unpack (C08.Spec.fsRequest r) ∧
+    FileStoreRequestTlv.unpack (C08.Spec.fsRequest r) = .ok r ∧ (C08.Spec.fsRequest r).length = r.packetLen := by
+  have h0 := C08.C08_fs_request_roundtrip r wf []
+  rw [List.append_nil] at h0
+  exact ⟨by rw [C08.C08_fs_request_roundtrip r wf s, h0], h0,
+    C08.C08_fs_request_len r _ (C08.C08_fs_request_pack_exact r wf)⟩
+
+theorem C09_pack_fs_response (r : FileStoreResponseTlv) (wf : C08.WFResp r) (s : Bytes) :
+    FileStoreResponseTlv.unpack (C08.Spec.fsResponse r ++ s) = FileStoreResponseTlv.unpack (C08.Spec.fsResponse r) ∧
+    FileStoreResponseTlv.unpack (C08.Spec.fsResponse r) = .ok r ∧ (C08.Spec.fsResponse r).length = r.packetLen := by
+  have h0 := C08.C08_fs_response_roundtrip r wf []
+  rw [List.append_nil] at h0
+  exact ⟨by rw [C08.C08_fs_response_roundtrip r wf s, h0], h0,
+    C08.C08_fs_response_len r _ (C08.C08_fs_response_pack_exact r wf)⟩
+
 /-! ## non-vacuity: concrete accepted buffers, packed units, a split -/
 
 -- a telecommand (service 17, subservice 1, two octets of data) is a packed unit of kind `tc`
@@ -384,8 +476,8 @@ those octets gives `r` (`C09_pdu_declared`); the same PDU followed by any octets
 again or refused with a documented error (`C09_pdu_trailing`) — all kinds but NAK always decode it
 (`C09_eof` … `C09_file_data`, `C09_pdu_suffix`), NAK always refuses it with `ValueError`
 (`C09_nak_trailing`, by design of the library's own test-suite). The decoded object reports exactly
-the declared length, except EOF (≤: it recomputes its length from the fault-location TLV it decoded)
-and Finished (recomputed from the decoded TLVs) — `C09_pdu_reported`. `C09_K_no_fold`: the decoded
+the declared length, except EOF and Finished (≤: they recompute their length from the TLVs they
+kept: fault location / filestore responses and the last entity-ID TLV) — `C09_pdu_reported`. `C09_K_no_fold`: the decoded
 PDU is the value of the parameter parser on the directive base and the declared PDU **minus its CRC
 trailer** — octets beyond the declared length and the trailer itself never reach the parameters,
 file data, options, filestore responses or segment requests. -/
@@ -435,10 +527,12 @@ theorem C09_eof (d : Bytes) (a : Eof.Eof) (hu : Eof.Eof.unpack d = .ok a) :
     DeclaredOnly Eof.Eof.unpack d a ∧ a.packetLen ≤ CfdpCrc.cfdpDeclaredLen d :=
   ⟨declaredOnly_of eof_declLocal hu, eof_reported_le hu⟩
 
-/-- Finished PDU: filestore responses and fault location come from the declared PDU only -/
+/-- Finished PDU: filestore responses and fault location come from the declared PDU only; the
+    decoded object (whose length is recomputed from the filestore responses and the last entity-ID TLV
+    it kept) reports at most the declared length -/
 theorem C09_finished (d : Bytes) (a : Finished.Finished) (hu : Finished.Finished.unpack d = .ok a) :
-    DeclaredOnly Finished.Finished.unpack d a :=
-  declaredOnly_of finished_declLocal hu
+    DeclaredOnly Finished.Finished.unpack d a ∧ a.packetLen ≤ CfdpCrc.cfdpDeclaredLen d :=
+  ⟨declaredOnly_of finished_declLocal hu, finished_reported_le hu⟩
 
 /-- NAK PDU: an accepted buffer is *exactly* the declared PDU -/
 theorem C09_nak (d : Bytes) (k : Nak.Nak) (hu : Nak.Nak.unpack d = .ok k) :
@@ -457,10 +551,11 @@ theorem C09_pdu_declared (k : PduKind) (d : Bytes) (r : PduDecoded) (hu : k.deco
     CfdpCrc.cfdpDeclaredLen d ≤ d.length ∧ k.decode (d.take (CfdpCrc.cfdpDeclaredLen d)) = .ok r :=
   PduKind.declRestricts k d r hu
 
-/-- the decoded object's `packet_len` is the declared length (EOF: at most; Finished: no claim) -/
+/-- the decoded object's `packet_len` is the declared length for every kind but EOF and Finished,
+    and never exceeds it for any kind (EOF and Finished recompute it from the TLVs they kept) -/
 theorem C09_pdu_reported (k : PduKind) (d : Bytes) (r : PduDecoded) (hu : k.decode d = .ok r) :
     (k ≠ .eof → k ≠ .finished → r.len = CfdpCrc.cfdpDeclaredLen d) ∧
-    (k = .eof → r.len ≤ CfdpCrc.cfdpDeclaredLen d) :=
+    r.len ≤ CfdpCrc.cfdpDeclaredLen d :=
   PduKind.reported k d r hu
 
 /-- **every PDU kind**: the declared PDU followed by any octets is decoded exactly as the PDU alone
